@@ -301,7 +301,7 @@ def bit_to_number(bit_array, is_string=True, verbose=False):
         decimal_number = 0
 
         for index, a_bit in enumerate(bit_array):
-            decimal_number = decimal_number * 2 + a_bit
+            decimal_number = decimal_number * 2 + int(a_bit)
             if verbose:
                 monitor(index + 1, len(bit_array))
 
